@@ -365,6 +365,17 @@ def sub_bulk(case):
     if not bits_equal(np.array(back.poses_se3), np.array(obj.poses_se3)):
         raise Mismatch("KITTI(bulk): matrices differ", observed="matrix", fmt="KITTI")
     _cmp_traj(obj, pandas_bridge.df_to_trajectory(pandas_bridge.trajectory_to_df(obj)), "DataFrame(bulk)", True)
+    if case.get("via_path"):
+        # the same through files on disk (str / pathlib.Path targets)
+        w, r = _target("pathlib" if case["seed"] % 2 else "str", ".tum")
+        file_interface.write_tum_trajectory_file(w, obj)
+        _cmp_traj(obj, file_interface.read_tum_trajectory_file(r), "TUM(bulk %d, path)" % n, True)
+        w, r = _target("str" if case["seed"] % 2 else "pathlib", ".kitti")
+        file_interface.write_kitti_poses_file(w, obj)
+        back = file_interface.read_kitti_poses_file(r)
+        if back.num_poses != n or not bits_equal(np.array(back.poses_se3), np.array(obj.poses_se3)):
+            raise Mismatch("KITTI(bulk %d, path): %d poses came back / matrices differ" % (n, back.num_poses), observed="matrix", fmt="KITTI")
+        return "bulk/path"
     return "bulk"
 
 
@@ -389,8 +400,8 @@ st_res = st.fixed_dictionaries({
 })
 st_bag = st.fixed_dictionaries(dict(_traj_fields, frame=st.text(alphabet="abcdefghijklmnopqrstuvwxyz_/0123456789", max_size=12),
                                     topic=st.text(alphabet="abcdefghijklmnopqrstuvwxyz_", min_size=1, max_size=8)))
-st_bulk = st.fixed_dictionaries({"n": st.sampled_from([1000, 20000]), "seed": st.integers(0, 2 ** 32)})
-st_bulk_thorough = st.fixed_dictionaries({"n": st.sampled_from([1000, 20000, 100000]), "seed": st.integers(0, 2 ** 32)})
+st_bulk = st.fixed_dictionaries({"n": st.sampled_from([1000, 20000, 40000]), "seed": st.integers(0, 2 ** 32), "via_path": st.booleans()})
+st_bulk_thorough = st.fixed_dictionaries({"n": st.sampled_from([1000, 20000, 40000, 100000]), "seed": st.integers(0, 2 ** 32), "via_path": st.booleans()})
 
 
 def _nt(case):
@@ -407,6 +418,8 @@ SUBS = [
     Sub("history", sub_result_history, st.fixed_dictionaries({
         "results": st.lists(st_res, min_size=2, max_size=3), "via": st.sampled_from(["str", "pathlib", "relative"]), "load_trajectories": st.booleans(),
         "trajs": st.lists(st.fixed_dictionaries(dict(_traj_fields)), min_size=2, max_size=3)}), 200, 8000, nontrivial=lambda c: True),
-    Sub("bulk", sub_bulk, st_bulk, 4, 0, shards_quick=4),
+    Sub("bulk", sub_bulk, st_bulk, 8, 0, shards_quick=8),
+    Sub("bulk_path", sub_bulk, st.fixed_dictionaries({"n": st.sampled_from([40000, 70000]), "seed": st.integers(0, 2 ** 32), "via_path": st.just(True)}), 2, 12,
+        shards_quick=2),
     Sub("bulk_large", sub_bulk, st_bulk_thorough, 0, 48),
 ]
